@@ -67,6 +67,9 @@ func VerifResp_Lifecycle() {
 	}
 	e := NewEnv(kit.Chain(k), has, 1, 0, 1<<40, 1<<30)
 	e.S.Net.MaxFaults = verifrt.Param("FAULTS", 0)
+	if verifrt.Param("DELAYFINISH", 1) == 1 {
+		e.DelayFinish = verifrt.Choose("executor-slow-to-report-finish", 2) == 1
+	}
 	pA := peer.ID("peerA")
 	peers := []peer.ID{pA}
 	sent := make([]bool, nreq)
